@@ -789,7 +789,17 @@ func (g *gen) stmtBody(d int) []string {
 		} else {
 			g.structs = append(g.structs, v)
 		}
-		return g.trail([]string{l}, 15, "composite")
+		out := g.trail([]string{l}, 15, "composite")
+		if g.chance("call-method-now", 35) {
+			if strings.HasPrefix(l, v+" := &") {
+				g.f("method-call-pointer")
+				out = append(out, v+".Bump("+g.intExpr(1)+")", g.printStmt(v+".a"))
+			} else {
+				g.f("method-call")
+				out = append(out, g.printStmt(v+".Get()", v+".Sum("+g.intExpr(1)+")"))
+			}
+		}
+		return out
 	case 8: // map
 		v := g.name("m")
 		l := v + " := " + g.mapLit(1)
@@ -1199,6 +1209,11 @@ func (g *gen) loopBody(d int, what string, label string) []string {
 		g.labels = append(g.labels, label)
 	}
 	body := g.block(d-1, 3, what)
+	if label != "" && g.chance("use-own-label", 70) {
+		kw := []string{"continue", "break"}[g.pick("ownlabelkw", 2)]
+		g.f(kw + "-label")
+		body = append(body, g.braced("if "+g.boolExpr(1), []string{kw + " " + label}, "")...)
+	}
 	if label != "" {
 		g.labels = g.labels[:len(g.labels)-1]
 	}
